@@ -11,6 +11,7 @@ from .. import lib, ref
 from ..ref import Graph
 
 LEVEL = "exploration"
+TECHNIQUE = 'runtime monitoring: identity (is) comparison of collection[i] with the harness-built concatenation for every index, exhaustive over length vectors in {0,1,2}^k (k<=5) plus random and long members, shared names, repeated random-order access'
 RULE = ("MazeDatasetCollection built from member datasets with prescribed lengths: exhaustively every length vector in {0,1,2}^k for "
         "k<=5 (363 vectors) plus random vectors (k<=8, lengths<=6, zeros at start/middle/end and repeated) plus members of 126..300 mazes (cumulative lengths past 127/255; thorough: 33000), member names unique or shared, member grid sizes equal "
         "and different; for every index 0<=i<len (and again in random order) the item must be *the very object* (is) at position i of the concatenation; len, "
